@@ -137,6 +137,8 @@ type Service struct {
 	ElemHook func(ev *Event, resp map[string]any) map[string]any
 	// Delay hook executed before answering (used for ordering / gating).
 	Before func(c *Call)
+	// After is called once the answer of a call has been computed.
+	After func(c *Call)
 }
 
 func NewService(name, url, sdl string, data *gen.Data, log *Log) (*Service, error) {
@@ -321,6 +323,9 @@ func (s *Service) ServeBytes(req *http.Request, contentType string, body []byte)
 	evs := make([]*Event, len(wires))
 	for i, r := range call.Requests {
 		resps[i], evs[i] = s.Eval(r, callID, i, len(wires), call.Multipart, files)
+	}
+	if s.After != nil {
+		defer s.After(call)
 	}
 	if fault != nil && fault.Kind != "" {
 		for _, e := range evs {
